@@ -15,18 +15,28 @@ def recordsOf (cuts : List Nat) (total : Nat) : List Nat :=
     | c :: rest => (c - prev) :: go c rest
   go 0 cs
 
+/-- one `write` of more than 16384 bytes leaves the TLS layer as several records (the TLS
+    plaintext limit) -/
+def splitRecord (fuel r : Nat) : List Nat :=
+  match fuel with
+  | 0 => [r]
+  | fuel + 1 => if r ≤ 16384 then [r] else 16384 :: splitRecord fuel (r - 16384)
+
 def guiOp (toks : List String) : String :=
   match kv toks "plens", kv toks "cuts", kv toks "end", kv toks "endpack" with
   | some pl, some cuts, some endm, some endpack =>
     let plens := natList pl
-    let bitmaps : List Pdu := plens.zipIdx.map fun (l, i) => ⟨.bitmap i, l⟩
+    -- `quiet=`: positions (in `plens`) of PDUs the client decodes and ignores; bitmap ids count the others
+    let quiet := match kv toks "quiet" with | some q => natList q | none => []
+    let bitmaps : List Pdu := (plens.zipIdx.foldl (fun (acc : List Pdu × Nat) (li : Nat × Nat) =>
+      if quiet.contains li.2 then (acc.1 ++ [⟨.quiet, li.1⟩], acc.2) else (acc.1 ++ [⟨.bitmap acc.2, li.1⟩], acc.2 + 1)) ([], 0)).1
     let endPdu : Option Pdu :=
       if endm = "dpu" then some ⟨.ultimatum, 9⟩ else if endm = "bad" then some ⟨.badRdp, 10⟩
       else if endm = "badio" then some ⟨.badIo, 9⟩ else none
     let packed := endpack = "1" ∧ endPdu.isSome
     let stream := bitmaps ++ (match endPdu with | some p => [p] | none => [])
     let dataTotal := (bitmaps.map (·.len)).foldl (· + ·) 0 + (if packed then (endPdu.map (·.len)).getD 0 else 0)
-    let recs := recordsOf (natList cuts) dataTotal
+    let recs := (recordsOf (natList cuts) dataTotal).flatMap fun r => splitRecord (r / 16384 + 1) r
     let fuel := 4 * (stream.length + recs.length) + 16
     -- phase 1: all data records arrive, the thread runs until it blocks; the server is silent
     let s1 := run true fuel (recs.foldl (fun s r => push r s) (init stream))
@@ -38,12 +48,13 @@ def guiOp (toks : List String) : String :=
     let inp := if kv toks "inputs" == some "1" then (if s1.pc = .rd then "blocked" else "ok") else "-"
     let model := "silent=" ++ showIds s1.delivered ++ " final=" ++ showIds s3.delivered ++ " exit=" ++ (if s3.pc = .done then "yes" else "no") ++ " in=" ++ inp
     -- specification: everything sent is forwarded while the server is silent, and the thread stops
-    let all := showIds ((List.range plens.length))
+    let all := showIds ((List.range (plens.length - (quiet.filter (· < plens.length)).eraseDups.length)))
     let want := "silent=" ++ all ++ " final=" ++ all ++ " exit=yes in=" ++ (if kv toks "inputs" == some "1" then "ok" else "-")
-    -- class of the recorded finding: some record is not exactly one PDU
+    -- class of the recorded finding: some PDU ends inside a record
     let bounds := (stream.take (if packed then stream.length else bitmaps.length)).foldl (fun (acc : List Nat × Nat) p => (acc.1 ++ [acc.2 + p.len], acc.2 + p.len)) ([], 0)
     let recEnds := recs.foldl (fun (acc : List Nat × Nat) r => (acc.1 ++ [acc.2 + r], acc.2 + r)) ([], 0)
-    let aligned := bounds.1 = recEnds.1
+    -- every PDU ends where a record ends (a PDU may span several records): nothing is ever left buffered
+    let aligned := bounds.1.all fun b => recEnds.1.contains b
     model ++ "\t" ++ (if aligned then want else "X:tls-buffered-stall:" ++ want)
   | _, _, _, _ => "bad-case"
 
